@@ -59,7 +59,7 @@ echo "--- replaying every stored file against the repaired tree"
 bad=0
 for f in findings/*.json; do
   id=$(python3 -c "import json;print(json.load(open('$f'))['property'])")
-  r=$(sim/target/release/h3sim "$id" --replay "$f" 2>&1 | tail -1 | cut -c1-90)
+  r=$(sim/target/release/h3sim "$id" --replay "$f" 2>&1 | tail -1 | cut -c1-400)
   case "$r" in *"no violation"*|KNOWN-FINDING*) ;; *) echo "$f: $r"; bad=1;; esac
 done
 [ $bad -eq 0 ] && echo "all stored files: no violation on the repaired tree"
